@@ -24,15 +24,19 @@ unsafe impl lock_api::RawRwLock for RawRwLock {
 
     type GuardMarker = lock_api::GuardNoSend;
 
+    // After an exclusive acquisition there is a second scheduling point: a real thread can be descheduled while it
+    // holds the lock, which is the only way another thread gets to block on it or to see a try_lock fail.
     fn try_lock_exclusive(&self) -> bool {
         vsched::point("try_lock_exclusive");
-        self.state.compare_exchange(0, WRITER, Ordering::SeqCst, Ordering::SeqCst).is_ok()
+        let ok = self.state.compare_exchange(0, WRITER, Ordering::SeqCst, Ordering::SeqCst).is_ok();
+        if ok { vsched::point("holding_exclusive"); }
+        ok
     }
 
     fn lock_exclusive(&self) {
         vsched::point("lock_exclusive");
         loop {
-            if self.state.compare_exchange(0, WRITER, Ordering::SeqCst, Ordering::SeqCst).is_ok() { return; }
+            if self.state.compare_exchange(0, WRITER, Ordering::SeqCst, Ordering::SeqCst).is_ok() { vsched::point("holding_exclusive"); return; }
             vsched::block_on(self.addr());
         }
     }
